@@ -10,6 +10,8 @@ Read from the live classes (`inspect.signature`) and from the AST of `services/u
                arguments normalised to (callee parameter name, expression), `config` dropped;
 * `classSigs`  constructor parameters and defaults, SERVICE_ID and class level SUB_FUNCTION_ID of every constructed class;
 * `wire`       method name -> (service id, sub-function) of the class its body constructs;
+* `bodies`     for every public UDSClient service method the statements of its body other than the docstring and the final
+               `return await self.request(service.<Class>(...), config?)` (normally none), as source text;
 * `transmitBody` the statements of ECU.transmit_data (docstring and logging dropped), one string each.
 
 Expressions: a parameter of the enclosing function, a literal (int / bool / bytes / None, `DataIdentifier.<X>` evaluated on the live
@@ -244,6 +246,26 @@ def main():
         if n not in seen_sig:
             die(f"{n}: no request construction / delegation found in its body")
 
+    # ---- nothing else happens in a service method: statements besides the docstring and `return await self.request(<ctor>, config?)`
+    body_rows = []
+    for f in client_fs:
+        if f.name not in CLIENT_METHODS:
+            continue
+        extra = []
+        stmts = list(f.body)
+        if stmts and isinstance(stmts[0], ast.Expr) and isinstance(stmts[0].value, ast.Constant) and isinstance(stmts[0].value.value, str):
+            stmts = stmts[1:]
+        for i, st in enumerate(stmts):
+            last = i == len(stmts) - 1
+            ok = (last and isinstance(st, ast.Return) and isinstance(st.value, ast.Await) and isinstance(st.value.value, ast.Call)
+                  and ast.unparse(st.value.value.func) == "self.request" and 1 <= len(st.value.value.args) <= 2
+                  and not st.value.value.keywords
+                  and isinstance(st.value.value.args[0], ast.Call) and ast.unparse(st.value.value.args[0].func).startswith("service.")
+                  and (len(st.value.value.args) == 1 or ast.unparse(st.value.value.args[1]) == "config"))
+            if not ok:
+                extra += ast.unparse(st).splitlines()
+        body_rows.append(f"  ({lean_method(f.name)}, [" + ", ".join(lean_str(x) for x in extra) + "])")
+
     class_rows = []
     for c in sorted(constructed, key=lambda c: CLASSES.index(c.__name__) if c.__name__ in CLASSES else -1):
         sid, sf = c.SERVICE_ID, getattr(c, "SUB_FUNCTION_ID", None)
@@ -286,6 +308,8 @@ def main():
     body += "def classSigs : List ClsSig := [\n" + ",\n".join(class_rows) + " ]\n\n"
     body += "/-- public method -> (service id, sub-function id) of the class its body constructs -/\n"
     body += "def wire : List (Method × Option Nat × Option Nat) := [\n" + ",\n".join(wire) + " ]\n\n"
+    body += "/-- statements of every public service method besides the docstring and `return await self.request(service.<Class>(...), config)` -/\n"
+    body += "def bodies : List (Method × List String) := [\n" + ",\n".join(body_rows) + " ]\n\n"
     body += "/-- ECU.transmit_data, statement by statement (docstring and logging dropped) -/\n"
     body += "def transmitBody : List String := [\n" + ",\n".join("  " + lean_str(s) for s in body_lines) + " ]\n\n"
     body += "end Gallia.Gen.C01Api\n"
